@@ -789,6 +789,7 @@ func (e *Engine) Run(ops []string, res *report.Result) *report.Failure {
 		connectRes := "-"
 		replacedAddr := ""
 		replacedNow := false // this very populate replaced the proxy object (listen or upstream differ)
+		reAddressed := false // this very update changed the proxy's upstream
 		var exec func()
 		switch f[0] {
 		case "upstream":
@@ -892,7 +893,25 @@ func (e *Engine) Run(ops []string, res *report.Result) *report.Failure {
 				res.Count("skipped:no-upstream")
 				continue
 			}
-			exec = func() { w.api("PATCH", "/proxies/"+f[1], fmt.Sprintf(`{"upstream":%q}`, w.upAddr[f[2]])) }
+			replacedAddr = w.proxies[f[1]]
+			exec = func() {
+				// a change of the upstream re-addresses the proxy: the connections made through it
+				// so far are dropped (C03), the listener comes back on the same address
+				if p := w.proxy(f[1]); p != nil {
+					p.Lock()
+					differs := p.Upstream != w.upAddr[f[2]]
+					p.Unlock()
+					reAddressed = differs
+					if differs {
+						for _, cn := range w.conns {
+							if cn.proxy == f[1] {
+								cn.old = true
+							}
+						}
+					}
+				}
+				w.api("PATCH", "/proxies/"+f[1], fmt.Sprintf(`{"upstream":%q}`, w.upAddr[f[2]]))
+			}
 		case "tadd":
 			a1, _ := strconv.ParseInt(f[5], 10, 64)
 			a2, _ := strconv.ParseInt(f[6], 10, 64)
@@ -1093,7 +1112,7 @@ func (e *Engine) Run(ops []string, res *report.Result) *report.Failure {
 				continue
 			}
 			exec = func() { w.stallStop(f[1], f[2], f[3], addr, &connectRes) }
-		case "close":
+		case "close", "closenw":
 			c := w.conns[f[1]]
 			if c == nil {
 				res.Count("skipped:no-conn")
@@ -1164,7 +1183,7 @@ func (e *Engine) Run(ops []string, res *report.Result) *report.Failure {
 		var got string
 		pollEvery := 500 * time.Microsecond
 		deadline := time.Now().Add(3*time.Second + 4*time.Duration(virt))
-		if f[0] == "sendnw" {
+		if f[0] == "sendnw" || f[0] == "closenw" {
 			// the state "at this instant": it must show up before the first timer can fire
 			deadline = time.Now().Add(150 * time.Millisecond)
 		} else if e.OracleOnly {
@@ -1187,7 +1206,7 @@ func (e *Engine) Run(ops []string, res *report.Result) *report.Failure {
 				pollEvery += pollEvery / 2
 			}
 		}
-		if got == want && f[0] != "sendnw" {
+		if got == want && f[0] != "sendnw" && f[0] != "closenw" {
 			// and that it stays so
 			time.Sleep(3 * time.Millisecond)
 			r := connectRes
@@ -1209,6 +1228,12 @@ func (e *Engine) Run(ops []string, res *report.Result) *report.Failure {
 		// ---- model-free oracles
 		if wantsProp("C03") && (f[0] == "disable" || f[0] == "delete" || f[0] == "stallstop") {
 			if of := w.downOracle(i, fail, f[1]); of != nil {
+				result = of
+				break
+			}
+		}
+		if wantsProp("C03") && f[0] == "setupstream" && reAddressed {
+			if of := w.replacedOracle(i, fail, f[1], replacedAddr, true); of != nil {
 				result = of
 				break
 			}
